@@ -214,7 +214,7 @@ func report(c *vh.Ctx, cc caseCfg, res caseRes, forced string) bool {
 			// WAL disabled: only the clause "not acknowledged when the rows cannot be buffered or flushed"
 			if res.fullAck[id] {
 				key := "nowal-ack:queue-full-dropped-but-acknowledged"
-				if forced != "" {
+				if strings.HasPrefix(forced, "nowal-ack:") {
 					key = forced
 				}
 				fail(key, fmt.Sprintf("WAL disabled: row %d was dropped by the queue-full arm of tryEnqueueFlush, the write still returned nil (HTTP 204) and the row is never stored", id))
@@ -222,14 +222,14 @@ func report(c *vh.Ctx, cc caseCfg, res caseRes, forced string) bool {
 			continue
 		}
 		key := "loss:" + res.cause[id]
-		if forced != "" {
+		if strings.HasPrefix(forced, "loss:") {
 			key = forced
 		}
 		fail(key, fmt.Sprintf("acknowledged row %d is never stored although storage recovered and maintenance ticks, aged flush, graceful shutdown and restart completed (last copy gone after event %q)", id, k))
 	}
 	for id, k := range res.dup {
 		key := "dup:" + res.cause[id]
-		if forced != "" {
+		if strings.HasPrefix(forced, "dup:") {
 			key = forced
 		}
 		fail(key, fmt.Sprintf("row %d is stored more than once (second Parquet copy appeared after event %q)", id, k))
@@ -435,7 +435,10 @@ func main() {
 		for t := 0; t < sc.tries && !hit; t++ {
 			res := runCase(c, scratch, cc, facts, sc.ops, true)
 			c.Case("scenario:"+sc.key+fmt.Sprint(t), true)
-			hit = report(c, cc, res, sc.key)
+			report(c, cc, res, sc.key)
+			for _, pf := range c.PropFails {
+				hit = hit || pf.Key == sc.key
+			}
 		}
 		if hit {
 			c.Tag("scenario-violates:" + sc.key)
@@ -497,7 +500,7 @@ func main() {
 	if n == 0 {
 		n = 1500
 		if c.Thorough() {
-			n = 8000
+			n = 15000
 		}
 	}
 	for i := 0; i < n; i++ {
